@@ -38,6 +38,8 @@ def axes(tier, seed):
                        shape_in_beams=SHAPES_T[1:] if q else SHAPES_T),
                 B=dict(docov=[True, False], amplitude=[1e-2, 1.0, 1e2], cdelt_arcsec=[3, 10, 30], beam_px=[(4, 3, 20), (5, 5, 0)],
                        pa=[-45.0, 30.0, 90.0] if q else PAS_T, phase=PHASES_T[:2]),
+                D=dict(projection=["SIN", "ZEA"], shape_in_beams=[(1.0, 1.0), (1.2, 1.0), (1.5, 1.0)], exact_phase=[(0.5, 0.5), (0.5, 0.0), (0.0, 0.5), (0.25, 0.75)],
+                       snr=[100, 1000, 10000], docov=[False, True]),
                 C=dict(realisations=8 if q else 24, modes=["white+nocov", "correlated+cov"], rms=["forced", "BANE cores=1", "BANE cores=2"],
                        snr=[50, 200], shape_in_beams=[(1.5, 1.0), (2.0, 1.2)]))
 
@@ -52,6 +54,10 @@ def cases(tier, seed):
     for docov, amp, cd, beam, pa, p in itertools.product([True, False], [1e-2, 1.0, 1e2], [3.0, 10.0, 30.0], [(4, 3, 20), (5, 5, 0)],
                                                        [-45.0, 30.0, 90.0] if q else PAS_T, range(2)):
         yield "B", dict(docov=docov, amp=amp, cdelt=cd, beam=list(beam), pa=pa, phase=list(PHASES_T[p]))
+    # D: peaks exactly between pixels (no seed shift) at high signal-to-noise, beam-sized and slightly larger sources
+    for proj, shp, ph, snr, docov in itertools.product(["SIN", "ZEA"], [(1.0, 1.0), (1.2, 1.0), (1.5, 1.0)], [(0.5, 0.5), (0.5, 0.0), (0.0, 0.5), (0.25, 0.75)],
+                                                     [100.0, 1000.0, 1e4], [False, True]):
+        yield "D", dict(proj=proj, shape=list(shp), phase=list(ph), snr=snr, docov=docov)
     nreal = 8 if q else 24
     for real, mode, rmsmode, snr, s in itertools.product(range(nreal), ["white", "corr"], ["forced", "bane1", "bane2"], [50, 200], [1, 2]):
         if rmsmode != "forced" and (real % 4 != 0):
@@ -144,6 +150,28 @@ def ev_B(case, ctx):
     compare_noisefree(out, src, hdr, beam, ctx, sig, sig)
 
 
+def ev_D(case, ctx):
+    d = os.environ["VERIF_SCRATCH"]
+    cd = 10.0 / 3600
+    shape = (64, 60)
+    beam_px = (4.0, 3.0, 20.0)
+    beam = (beam_px[0] * cd, beam_px[1] * cd, beam_px[2])
+    hdr = wz.make_header(case["proj"], (77.0, 33.0), cd, shape, beam=beam)
+    src = skygauss.source_at_pixel(hdr, 31.0 + case["phase"][0], 29.0 + case["phase"][1], 1.0, case["shape"][0] * beam_px[0],
+                                   case["shape"][1] * beam_px[1], beam_px[2] if case["shape"][0] == case["shape"][1] else -35.0)
+    f = os.path.join(d, "c01d.fits")
+    scenes.write_image(f, hdr, skygauss.render(hdr, shape, [src]))
+    sig = "D:%s,shape=%r,phase=%r,snr=%g,docov=%s" % (case["proj"], case["shape"], case["phase"], case["snr"], case["docov"])
+    ctx.count("D")
+    ctx.nontrivial(sig)
+    try:
+        out = run_finder(f, rms=1.0 / case["snr"], docov=case["docov"])
+    except Exception as e:
+        ctx.violation("finder raised %r (%s)" % (e, sig), "raise|" + sig)
+        return
+    compare_noisefree(out, src, hdr, beam, ctx, sig, sig)
+
+
 def correlated_noise(shape, beam_px, rs):
     """unit-variance noise whose autocorrelation is a Gaussian with sigmas beam_sigma/sqrt(2): white noise convolved
     with the half-beam kernel (sigma = beam_sigma / 2), rotated to the beam position angle in pixel space"""
@@ -229,4 +257,4 @@ def ev_C(case, ctx):
 
 
 def evaluate(clause, case, ctx):
-    dict(A=ev_A, B=ev_B, C=ev_C)[clause](case, ctx)
+    dict(A=ev_A, B=ev_B, C=ev_C, D=ev_D)[clause](case, ctx)
